@@ -82,6 +82,7 @@ def run(replay=None):
         for a in r["also"]:
             hit |= set(a or [])
         generic_apply = [m for m, t in zip(r["methods"], r["targets"]) if "G[" in t and t.endswith(".Apply")]
+        want_tag = {m: t for m, t in zip(r["methods"], r.get("want_tags") or []) if t}
         for m, kx, res in r["during"]:
             k, x = kx // 1000, kx % 1000
             orig = k * 100 + x + consts[m]
@@ -93,6 +94,9 @@ def run(replay=None):
                         ck.impl_violation("generic-args-shifted", "a callback on %s does not receive the receiver as its first argument (instance %d, argument %d arrive as %d)" % (names[m], k, x, res % 100000), dict(case, method=names[m], k=k, x=x, got=res))
                     else:
                         ck.impl_violation("receiver-or-argument-altered:" + names[m], "the replacement of %s sees receiver/argument %d instead of %d" % (names[m], res % 100000, k * 100 + x), dict(case, method=names[m], k=k, x=x, got=res))
+                elif m in want_tag and res >= 0 and res // 100000 != want_tag[m]:
+                    ck.impl_violation("stale-replacement:" + names[m], "%s was mocked again with another callback (%s): calls still reach the earlier replacement (tag %d, want %d)" % (
+                        names[m], r["targets"], res // 100000, want_tag[m]), dict(case, method=names[m], k=k, x=x, got=res))
             elif res != orig:
                 ck.impl_violation("other-method-affected:" + names[m], "mocking %s changes %s (instance %d: %d instead of %d)" % (r["targets"], names[m], k, res, orig), dict(case, method=names[m], k=k, x=x, got=res))
         if r.get("reset_panic"):
